@@ -158,7 +158,13 @@ func metricsOps(rt *rapid.T, m *memmetrics.RTMetrics) op {
 	case 4:
 		return func() { _, _ = m.LatencyHistogram() }
 	case 5:
-		return func() { _ = m.Export() }
+		// a snapshot is taken and read while the live metrics go on recording
+		return func() {
+			snap := m.Export()
+			_ = snap.TotalCount()
+			_ = snap.StatusCodesCounts()
+			_ = snap.NetworkErrorCount()
+		}
 	case 6:
 		return func() { _ = m.NetworkErrorCount() }
 	default:
